@@ -13,14 +13,14 @@ def one(sid):
     try:
         dst = os.path.join(tmp, "repo")
         subprocess.run(["rsync", "-a", "--exclude", ".git", "/repo/", dst + "/"], check=True)
-        r = subprocess.run(["git", "apply", os.path.join(d, "patch.diff")], cwd=dst, capture_output=True, text=True)
+        r = subprocess.run(["git", "apply", os.path.join(d, "patch.diff")], cwd=dst, capture_output=True, text=True, errors="replace")
         if r.returncode != 0:
-            r = subprocess.run(["patch", "-p1", "-i", os.path.join(d, "patch.diff")], cwd=dst, capture_output=True, text=True)
+            r = subprocess.run(["patch", "-p1", "-i", os.path.join(d, "patch.diff")], cwd=dst, capture_output=True, text=True, errors="replace")
             if r.returncode != 0:
                 return sid, prop, "patch does not apply", []
         env = dict(os.environ, GOFLAGS="-mod=mod -trimpath", GOPROXY="off", GOSUMDB="off", GOTOOLCHAIN="local")
         env.pop("GOWORK", None)
-        c = subprocess.run([os.path.join(HERE, "bin", "escalint"), "check", "-prop", prop, "-repo", dst, "-verif", HERE, "-n"], capture_output=True, text=True, env=env)
+        c = subprocess.run([os.path.join(HERE, "bin", "escalint"), "check", "-prop", prop, "-repo", dst, "-verif", HERE, "-n"], capture_output=True, text=True, errors="replace", env=env)
         rules = sorted(set(l.split()[1] for l in c.stdout.splitlines() if l.startswith(("VIOLATED", "UNDECIDED", "VACUOUS", "ANCHOR-LOST"))))
         return sid, prop, "fires" if c.returncode == 1 else "BLIND", rules
     finally:
